@@ -127,6 +127,29 @@ fn scenarios(thorough: bool) -> Vec<Scenario> {
             v.push(s);
         }
     }
+    // two peers die at different frames and the survivor's application is suspended across both
+    // timeouts: the first poll afterwards finds both endpoints timed out, with different cut-offs
+    for (d2, d3) in [(5, 9), (9, 5), (6, 7)] {
+        for w in [16usize, 8] {
+            for sparse in [false, true] {
+                let mut s = base_scn("c17-two-timeouts-in-one-poll", "1+1+1", w, 0, sparse, Pred::RepeatLast, Program::Changing, 1);
+                for p in s.peers.iter_mut() {
+                    p.notify_ms = 100;
+                    p.timeout_ms = 300;
+                }
+                s.script.push(ScriptItem { round: d2, node: 1, action: Action::Die });
+                s.script.push(ScriptItem { round: d3, node: 2, action: Action::Die });
+                for r in 12..45 {
+                    s.scripted_stalls.push((0, r));
+                }
+                s.name = format!("{} deaths@{d2},{d3} survivor suspended rounds 12..45", s.name);
+                s.horizon = 50;
+                s.probe = 40;
+                s.checks = CK_C02 | CK_C04;
+                v.push(s);
+            }
+        }
+    }
     // one session ahead of several remotes by different amounts (frames_ahead() and the wait
     // recommendations are a maximum over the remote endpoints)
     for (tp, lags) in [("1+1+1", vec![(1usize, 4i32), (2, 9)]), ("1+1+1", vec![(1, 10), (2, 3)]), ("1+1+1+1", vec![(1, 3), (2, 7), (3, 12)])] {
